@@ -387,6 +387,15 @@ fn run_case(behs6: &[Beh], behs4: &[Beh], v4_first: bool, deadline: Deadline, co
         if all_refuse && deadline != Deadline::Expired && !err_text.contains("ConnectionRefused") {
             out.violation = Some(("error-not-from-an-attempt".into(), format!("every address refuses but the error is {err_text}; {descr}")));
         }
+        // no acceptor: whatever is reported must be what an attempt produced (refusal or timeout),
+        // and a pending (black-holed) attempt must be waited for up to its own limit
+        if first_acceptor.is_none() && !order.is_empty() && !(err_text.contains("ConnectionRefused") || err_text.contains("TimedOut") || err_text.contains("timed out")) {
+            out.violation = Some(("error-not-from-an-attempt".into(), format!("no address accepts, but the error is none of the attempts' errors: {err_text}; {descr}")));
+        }
+        let only_blackholes = !order.is_empty() && order.iter().all(|&x| beh_of(x) == Beh::BlackHole);
+        if out.violation.is_none() && only_blackholes && !single && deadline == Deadline::None && elapsed < Duration::from_millis(connect_timeout_ms.saturating_sub(150)) {
+            out.violation = Some(("pending-attempts-abandoned".into(), format!("every attempt was still pending (connect timeout {connect_timeout_ms} ms) but the call gave up after {elapsed:?}; {descr}")));
+        }
         // failure must come within the attempts' own time limits; on the racing path every
         // attempt is clamped by the overall deadline, so with a deadline T the failure is due at about T
         let limit = match (deadline, t_ms) {
